@@ -1,20 +1,22 @@
 package main
 
 import (
+	"bytes"
 	"fmt"
 	"os"
 
 	"github.com/tdewolff/canvas"
-	"verif/internal/fontread"
+	"github.com/tdewolff/canvas/renderers/pdf"
 )
 
 func main() {
-	b, _ := os.ReadFile("/repo/resources/EBGaramond12-Regular.otf")
-	f, _ := fontread.Open(b)
-	segs, _ := f.Outline(89)
-	fmt.Println(fontread.FmtOutline(segs))
+	b, _ := os.ReadFile("/repo/resources/" + os.Args[1])
 	cf, _ := canvas.LoadFont(b, 0, canvas.FontRegular)
-	face := cf.Face(1000*72/25.4, canvas.Black) // 1 unit = 1 mm
-	p, _, _ := face.ToPath("x")
-	fmt.Println(p.String())
+	for k, s := range []string{"A", "i", "AV"} {
+		buf := &bytes.Buffer{}
+		p := pdf.New(buf, 100, 80, &pdf.Options{Compress: false, SubsetFonts: true})
+		p.RenderText(canvas.NewTextLine(cf.Face(12, canvas.Black), s, canvas.Left), canvas.Identity)
+		p.Close()
+		fmt.Println("doc", k, s, len(buf.Bytes()))
+	}
 }
